@@ -764,10 +764,32 @@ def run_c09(chk):
 # ---------------------------------------------------------------------------
 # C17
 
+# a warning is issued exactly when an expression reads a never-assigned variable or a statement touches an array that does
+# not exist yet: programs with a known number of warning records (seeded changes C17-mut9: an identical warning right
+# behind its twin was dropped; C17-mut10: the warning was issued after the access, so it was lost when the access failed)
+C17_COUNTED = [(["10 PRINT Z * Z"], 2), (["10 Y = Y + X", "20 Y = Y + X"], 3), (["10 PRINT Q$ ; Q$ ; Q$"], 3),
+               (["10 PRINT A(11)"], 1), (["10 B(2, 11) = 1"], 1), (["10 C$(1) = 5"], 1), (["10 D(1,1,1,1,1) = 1"], 1),
+               (["10 PRINT E(1) : PRINT E(2) : E(3) = 1"], 1), (["10 DIM F(3) : PRINT F(1) : PRINT F(9)"], 0),
+               (["10 FOR I = 1 TO 2 : PRINT W : NEXT I"], 2)]
+
+
 def run_c17(chk):
     h = core.Harness(chk.harness_path)
     n = 70 if chk.tier == "quick" else 2000
     sessions = []
+    for prog, want in C17_COUNTED:
+        for t in (False, True):
+            s = sess.Session(h)
+            s.flags(True, t)
+            enter_program(s, prog)
+            s.line("RUN")
+            s.run_until_idle(replies=[], max_turns=40)
+            got = sum(1 for _, row in s.ops if row.kind == "row" for o in row.outputs() if o.startswith("W"))
+            chk.count("counted-warnings")
+            chk.case(("counted", tuple(prog), t), sample={"program": prog, "warnings": want})
+            if got != want:
+                chk.fail("warning-count", f"{prog} with warnings on, tracing {t}: {got} warning records, {want} reads of something that does not exist yet", session_replay(s))
+            sessions.append(s.ops)
     for i in range(n):
         r = chk.rng.fork(("c17", i))
         pg = gen.ProgGen(r, fault=0.05)
@@ -1013,7 +1035,10 @@ C14_NUMERALS = ["1", "007", ".5", "1.", "1.50", "0.1", "3.14159265358979", "1234
                 "0." + "0" * 322 + "49", "4.9" + "0" * 5, "123456789.123456789", "1E5", "2.2250738585072014", "100", "65536",
                 "0", "00", "0.0", "." + "0" * 400 + "1"]
 C14_DATA = ["1, 2, 3", '"a b", c', "hello \"there\", x", '"x" : PRINT 1', "  padded  ,  y ", "nan, inf, -inf, 1e5, -0, +7", "",
-            ",", '"unterminated', 'a"b"c', "été, \"ü\"", "1.50, 007, .5", '"", ""', "x y z", "1e400", '"a:b", "c,d"', "-", "1 2"]
+            ",", '"unterminated', 'a"b"c', "été, \"ü\"", "1.50, 007, .5", '"", ""', "x y z", "1e400", '"a:b", "c,d"', "-", "1 2",
+            # quoted items that would be NUMBERS without their quotes: LIST has to keep the quotes (seeded change C14-mut9:
+            # single words were listed bare, and Rust's float parser reads inf / infinity / nan in any case)
+            '"INF", "Infinity", "NaN"', '"nan", x, "inf"', '"5", "1E5", "-3"', '"RED", "GREEN", "inf"', '"infinity"', '".5", "+7", "0"']
 
 
 def run_c14(chk):
